@@ -35,9 +35,10 @@ import (
 )
 
 type c05Fault struct {
-	Kind  string `json:"kind"` // none | kill-at-ack | kill-before-put | kill-after-put | nack | nack-pack | put-fail | pause-resume | skew-kill
+	Kind  string `json:"kind"` // none | kill-at-ack | kill-before-put | kill-after-put | nack | nack-pack | nack-uid | put-fail | pause-resume | skew-kill
 	N     int    `json:"n"`
 	Round int    `json:"round,omitempty"`
+	UID   int64  `json:"uid,omitempty"` // nack-uid: the pack that carries this row is rejected on every attempt
 }
 
 type c05Case struct {
@@ -168,6 +169,27 @@ func runC05Case(c *c05Case, name string) *c05Result {
 			s.log(sevt{Kind: "note", Note: "downstream " + call.Method + " " + fmt.Sprint(call.Req)})
 		}
 		if call.Method != "ReplicateMessage" {
+			return nil
+		}
+		if f.Kind == "nack-uid" && call.Replicate != nil {
+			has := false
+			for _, m := range call.Replicate.Msgs {
+				if m != nil && uidOf(m) == f.UID {
+					has = true
+				}
+			}
+			if has {
+				fmu.Lock()
+				reject := nackCnt < 3
+				if reject {
+					nackCnt++
+				}
+				fmu.Unlock()
+				if reject {
+					res.faultHit = true
+					return fakemilvus.FailGRPC(codes.Internal, "injected downstream rejection of one pack")
+				}
+			}
 			return nil
 		}
 		if f.Kind == "nack-pack" && call.Replicate != nil {
@@ -422,7 +444,12 @@ func runC05Case(c *c05Case, name string) *c05Result {
 				fmt.Printf("C05-DEBUG %s clock=%d kind=%s api=%s code=%d note=%s\n", name, e.Clock, e.Kind, e.API, e.Code, e.Note)
 			}
 		}
-		fmt.Printf("C05-DEBUG %s dropped=%v marker=%v missing=%v inconclusive=%q\n", name, droppedColl, markerSent, missing, res.inconclusive)
+		fmt.Printf("C05-DEBUG %s fault=%+v hit=%v dropped=%v marker=%v missing=%v inconclusive=%q vios=%d packCnt=%d\n", name, c.Fault, res.faultHit, droppedColl, markerSent, missing, res.inconclusive, len(res.vios), sc.PackCnt)
+		kc := map[string]int{}
+		for _, v := range res.vios {
+			kc[v.key]++
+		}
+		fmt.Printf("C05-DEBUG %s vio-keys=%v\n", name, kc)
 	}
 	res.replay = map[string]any{"case": c, "sent": rs.sent, "events": tailEvents(s.events(), 1500), "missing": missing, "child_log_tail": s.tailChildLog(1500)}
 	return res
@@ -754,7 +781,7 @@ func c05Oracle(rs *runState, res *c05Result, missing []int64) {
 
 func runC05(tier string) *vf.Run {
 	run := vf.NewRun("C05", tier, "fault_enumeration")
-	run.Rule = "input = 1-2 collections x 1-3 shards (variant 0: one stream per source pchannel; variant 1: two collections sharing a source pchannel; variant 2: batcher count 6 / 250 ms / MaxMsgSize 1 KB with small packs followed by an oversized pack of the same stream; all downstream shards on ONE downstream channel; in variant 1 the second collection is dropped upstream three rounds before the end and a marker collection is created behind the drop), 6-11 rounds of inserts/deletes (bursts inside one tick interval) + ticks, batcher count 1 or 3; a fault-free run of the input counts the acks K and checkpoint Puts P; then the same input is re-run with one fault at an enumerated step: SIGKILL with the k-th ReplicateMessage applied but its reply held, SIGKILL just before / after the n-th checkpoint Put, k-th ReplicateMessage rejected once (absorbed by the service's retry) or the n-th pack that carries rows rejected on every attempt while the next pack of its batch is accepted, n-th checkpoint Put failing, pause+resume, and a skewed variant (one stream read slowly through a consumer gate, then killed). Quick: a fixed subset of the steps of three inputs (one per variant); thorough: every k and n of nine inputs. Non-trivial = the fault was delivered at the intended step and the run ended with all rows acked or a verdict; distinct by (input, fault kind, step)."
+	run.Rule = "input = 1-2 collections x 1-3 shards (variant 0: one stream per source pchannel; variant 1: two collections sharing a source pchannel; variant 2: batcher count 6 / 250 ms / MaxMsgSize 1 KB with small packs followed by an oversized pack of the same stream; all downstream shards on ONE downstream channel; in variant 1 the second collection is dropped upstream three rounds before the end and a marker collection is created behind the drop), 6-11 rounds of inserts/deletes (bursts inside one tick interval) + ticks, batcher count 1 or 3; a fault-free run of the input counts the acks K and checkpoint Puts P; then the same input is re-run with one fault at an enumerated step: SIGKILL with the k-th ReplicateMessage applied but its reply held, SIGKILL just before / after the n-th checkpoint Put, k-th ReplicateMessage rejected once (absorbed by the service's retry) or the n-th pack that carries rows rejected on every attempt while the next pack of its batch is accepted (also aimed at the first of two small packs that an oversized pack of the same stream flushes in one batch), n-th checkpoint Put failing, pause+resume, and a skewed variant (one stream read slowly through a consumer gate, then killed). Quick: a fixed subset of the steps of three inputs (one per variant); thorough: every k and n of nine inputs. Non-trivial = the fault was delivered at the intended step and the run ended with all rows acked or a verdict; distinct by (input, fault kind, step)."
 	run.Assumptions = []string{
 		"the fake downstream acks a ReplicateMessage when it ACCEPTS it (logged before replying); the child announces every store call to the supervisor BEFORE performing it, so 'checkpoint after ack' is judged on one clock without observation lag",
 		"message ids are unique over all topics (memq allocates them from one counter), so a checkpoint position identifies its stream's messages",
@@ -837,6 +864,24 @@ func runC05(tier string) *vf.Run {
 		}
 		for _, n := range pfails {
 			cases = append(cases, &c05Case{Input: i, Sc: sc, Fault: c05Fault{Kind: "put-fail", N: max(1, n)}})
+		}
+		// the batcher holds two small packs of a stream until an oversized pack of the same stream flushes all three in
+		// one batch (variant 2): the FIRST of the three is rejected on every attempt, the two behind it are accepted
+		{
+			uid := int64(sc.Idx%1000)*100000 + 1
+			trios := 0
+			for j, st := range sc.Steps {
+				if st.Op != "insert" && st.Op != "delete" {
+					continue
+				}
+				if j+4 < len(sc.Steps) && st.Op == "insert" && st.Rows == 1 && sc.Steps[j+1].Op == "tick" && sc.Steps[j+2].Op == "insert" && sc.Steps[j+2].Rows == 1 && sc.Steps[j+3].Op == "tick" && sc.Steps[j+4].Op == "insert" && sc.Steps[j+4].Rows == 120 {
+					trios++
+					if run.Thorough() || trios <= 2 {
+						cases = append(cases, &c05Case{Input: i, Sc: sc, Fault: c05Fault{Kind: "nack-uid", N: trios, UID: uid}})
+					}
+				}
+				uid++
+			}
 		}
 		cases = append(cases, &c05Case{Input: i, Sc: sc, Fault: c05Fault{Kind: "pause-resume", Round: 3}})
 		for _, k := range skews {
